@@ -104,6 +104,7 @@ def check(ctx):
     check_gene_list(ctx)
     check_transposed_tables(ctx)
     check_every_pair_recorded(ctx)
+    check_all_genes_corrected(ctx)
     # the marker files can be written for every outcome of the criteria --
     # no marker in one direction, no significant gene at all, a chunk of
     # a single pair (rules of C05 / sa/rules/idioms.py)
@@ -1469,3 +1470,83 @@ def check_every_pair_recorded(ctx):
                    if keyed else
                    f'`{unparse(st)[:60]}` is not keyed by the loop\'s own '
                    'pair index')
+
+
+def check_all_genes_corrected(ctx):
+    """the Holm correction counts hypotheses: m is the number of p-values
+    that enter it.  A gene list restricts which genes may be *recorded*
+    (through the penetrance inputs), it does not reduce the number of
+    genes tested: the statistics handed from the per-pair front end to the
+    t-test are the clusters' full mean / variance vectors, and the
+    corrected vector is returned as computed -- not scattered into a
+    vector of ones at the positions of a gene subset."""
+    db = ctx.db
+    rule = 'R-ARITH/holm-counts-all-genes'
+    fi, cfg, rd, ex = _fn(ctx, SC + 'diffexp_p_values_from_stats')
+    inner = db.fn(SC + 'diffexp_p_values')
+    n_call = 0
+    for n in cfg.nodes:
+        if n.id not in rd.live:
+            continue
+        for c in cfg.calls_in(n):
+            if resolve_callee(db, fi, c) is not inner:
+                continue
+            n_call += 1
+            mapping, _ = bind_args(inner, c)
+            bad = []
+            for (k, node_p, key) in (('mean1', 'node_1', "'mean'"),
+                                     ('var1', 'node_1', "'var'"),
+                                     ('mean2', 'node_2', "'mean'"),
+                                     ('var2', 'node_2', "'var'")):
+                want = ('sub', ('sub', ('param', 'precomputed_stats'),
+                                ('param', node_p)), ('const', key))
+                got = ex.expand(mapping.get(k), n.id) \
+                    if mapping.get(k) is not None else None
+                if got != want:
+                    bad.append(k)
+            ctx.ob(rule, 'diffexp_p_values_from_stats:inputs', fi.loc(c),
+                   not bad,
+                   'the full mean / variance vectors of both clusters are '
+                   'tested' if not bad else
+                   f'{bad} handed to diffexp_p_values are not the '
+                   'clusters\' full vectors: fewer p-values enter the Holm '
+                   'correction, its multipliers shrink, and genes pass '
+                   'that the correction over all genes rejects')
+    if n_call == 0:
+        raise AnalysisError('diffexp_p_values_from_stats no longer calls '
+                            'diffexp_p_values')
+    for r in _returns(cfg, rd):
+        t = ex.expand(r.ast.value, r.id)
+        ok = _cname(t) == 'diffexp_p_values'
+        ctx.ob(rule, 'diffexp_p_values_from_stats:result', fi.loc(r.ast),
+               ok,
+               'the corrected p-values are returned as computed' if ok
+               else f'the function returns {fmt_term(t)[:70]}, not the '
+               'vector diffexp_p_values computed for all genes')
+    # inside: the correction is applied to the whole p-value vector of
+    # the t-test
+    f2, c2, r2, e2 = _fn(ctx, SC + 'diffexp_p_values')
+    for r in _returns(c2, r2):
+        t = e2.expand(r.ast.value, r.id)
+        ok = True
+        for alt in term_alts(t):
+            arg = None
+            if _cname(alt) in ('correct_ttest', 'approx_correct_ttest') \
+                    and alt[2]:
+                arg = alt[2][0]
+            elif _cname(alt) in ('correct_ttest', 'approx_correct_ttest'):
+                arg = T.call_arg(alt, kw='ttest_metric')
+            good = arg is not None and arg[0] == 'sub' \
+                and _cname(arg[1]) == 'welch_t_test' \
+                and arg[2] == ('const', '2')
+            if good:
+                w = arg[1]
+                for k in ('mean1', 'var1', 'mean2', 'var2'):
+                    if T.call_arg(w, kw=k) != ('param', k):
+                        good = False
+            ok = ok and good
+        ctx.ob(rule, 'diffexp_p_values:corrected-vector', f2.loc(r.ast), ok,
+               'the whole p-value vector of the t-test on the given '
+               'vectors is corrected' if ok else
+               f'diffexp_p_values returns {fmt_term(t)[:80]}: not the '
+               'correction of the t-test\'s whole p-value vector')
